@@ -958,7 +958,7 @@ def run(ctx):
     # the G rows are also histories for the oracle
     hist = corpus_histories()
     hist += [dict(h, theme="grid:" + name) for name, h in rows]
-    n = ctx.scale(1500, 20000)
+    n = ctx.scale(2500, 20000)
     for _ in range(n):
         hist.append(resolve_and_run(gen_history(ctx.rng), ctx.rng))
     cases = [make_case(h) for h in hist]
